@@ -108,7 +108,8 @@ fn main() {
         }
         "jobdigest" => {
             let hs = args.get(2).and_then(|s| s.parse().ok()).unwrap_or(1);
-            engines::compile::jobdigest_main(hs, args.get(3).map(|s| s.as_str()).unwrap_or("[]"))
+            let layout = args.get(4).and_then(|s| s.parse().ok()).unwrap_or(0);
+            engines::compile::jobdigest_main(hs, layout, args.get(3).map(|s| s.as_str()).unwrap_or("[]"))
         }
         "hintprobe" => {
             // shows that push_i32 leaves the intended value on the interpreter's stack: point 2 is moved by it
